@@ -2,6 +2,7 @@ package sym
 
 import (
 	"fmt"
+	"strconv"
 	"go/types"
 )
 
@@ -171,7 +172,30 @@ func (e *Exec) concreteSize(v value) int64 {
 
 // ropeTotalLen returns the concrete length of the rope or forks to make it concrete when
 // every opaque piece has a length the path condition pins down; otherwise (-1,false).
+// concretizeNumbers replaces rendered-number pieces whose value is provably small by literals
+// (forking over the values), so that byte-level operations can proceed.
+func (e *Exec) concretizeNumbers(r symStr) symStr {
+	var out []piece
+	changed := false
+	for _, x := range r.p {
+		if x.k == pItoa {
+			if e.valid("(and (bvsge " + x.t + " " + bvConst(-16, 64) + ") (bvsle " + x.t + " " + bvConst(16, 64) + "))") {
+				v := e.concretize(symBV{x.t, 64}, -16, 17)
+				out = append(out, piece{k: pLit, lit: strconv.FormatInt(v, 10)})
+				changed = true
+				continue
+			}
+		}
+		out = append(out, x)
+	}
+	if !changed {
+		return r
+	}
+	return symStr{p: normRope(out), bytes: r.bytes}
+}
+
 func (e *Exec) indexRope(r symStr, idx value) value {
+	r = e.concretizeNumbers(r)
 	n, ok := concreteLen(r.p)
 	if ok {
 		return ropeIndex(r, e.indexIn(idx, n))
@@ -202,30 +226,45 @@ func (e *Exec) indexRope(r symStr, idx value) value {
 }
 
 func (e *Exec) sliceRope(r symStr, lo, hi value) value {
+	if _, isC := concreteLen(r.p); !isC {
+		r = e.concretizeNumbers(r)
+	}
+	n, ok := concreteLen(r.p)
+	conc := func(v value) int {
+		if sv, isSym := v.(symBV); isSym {
+			if !ok {
+				panic(abortPath{why: "symbolic slice bound on opaque string", kind: "unsupported"})
+			}
+			inb := "(and (bvsge " + sv.t + " " + bvConst(0, sv.w) + ") (bvsle " + sv.t + " " + bvConst(int64(n), sv.w) + "))"
+			if !e.decide(inb) {
+				panic(runtimeError(fmt.Sprintf("runtime error: slice bounds out of range [sym] with length %d", n)))
+			}
+			return int(e.concretize(sv, 0, int64(n)+1))
+		}
+		return int(asInt64(v))
+	}
 	l := 0
 	if lo != nil {
-		if _, ok := lo.(symBV); ok {
-			panic(abortPath{why: "symbolic slice bound on symbolic string", kind: "unsupported"})
-		}
-		l = int(asInt64(lo))
+		l = conc(lo)
 	}
 	h := -1
 	if hi != nil {
-		if _, ok := hi.(symBV); ok {
-			// common idiom s[:len(s)-k] is not supported
-			panic(abortPath{why: "symbolic slice bound on symbolic string", kind: "unsupported"})
-		}
-		h = int(asInt64(hi))
+		h = conc(hi)
 	}
-	n, ok := concreteLen(r.p)
 	if ok {
 		if h < 0 {
+			if hi != nil {
+				panic(runtimeError(fmt.Sprintf("runtime error: slice bounds out of range [:%d]", h)))
+			}
 			h = n
 		}
 		if l < 0 || h < l || h > n {
 			panic(runtimeError(fmt.Sprintf("runtime error: slice bounds out of range [%d:%d] with length %d", l, h, n)))
 		}
 	} else {
+		if l < 0 || (hi != nil && (h < 0 || h < l)) {
+			panic(runtimeError(fmt.Sprintf("runtime error: slice bounds out of range [%d:%d]", l, h)))
+		}
 		// bounds check against symbolic length
 		need := l
 		if h > need {
@@ -239,6 +278,52 @@ func (e *Exec) sliceRope(r symStr, lo, hi value) value {
 		}
 	}
 	return ropeVal(ropeSlice(r, l, h, false))
+}
+
+// ropeToRunes converts a byte-transparent rope to []rune assuming every symbolic byte is ASCII.
+func (e *Exec) ropeToRunes(r symStr) value {
+	r = e.concretizeNumbers(r)
+	n, ok := concreteLen(r.p)
+	if !ok {
+		panic(abortPath{why: "[]rune of opaque string", kind: "unsupported"})
+	}
+	out := make([]value, 0, n)
+	for i := 0; i < n; i++ {
+		switch b := ropeIndex(r, i).(type) {
+		case uint8:
+			if b >= 0x80 {
+				panic(abortPath{why: "[]rune of non-ASCII literal inside a symbolic string", kind: "unsupported"})
+			}
+			out = append(out, rune(b))
+		case symBV:
+			e.Stats.Assumptions["symbolic bytes that are converted to runes are ASCII (< 0x80)"] = true
+			if !e.decide("(bvult " + b.t + " #x80)") {
+				panic(abortPath{why: "non-ASCII symbolic byte", kind: "assume"})
+			}
+			out = append(out, symBV{"((_ zero_extend 24) " + b.t + ")", 32})
+		}
+	}
+	return out
+}
+
+// runesToRope converts []rune with symbolic elements back to a string (ASCII assumed).
+func (e *Exec) runesToRope(rs []value) value {
+	var out symStr
+	for _, r := range rs {
+		switch x := r.(type) {
+		case int32:
+			out.p = append(out.p, piece{k: pLit, lit: string(rune(x))})
+		case symBV:
+			e.Stats.Assumptions["symbolic runes converted to strings are ASCII (< 0x80)"] = true
+			if !e.decide("(bvult " + x.t + " #x00000080)") {
+				panic(abortPath{why: "non-ASCII symbolic rune", kind: "assume"})
+			}
+			out.p = append(out.p, piece{k: pByte, t: "((_ extract 7 0) " + x.t + ")"})
+		default:
+			panic(abortPath{why: fmt.Sprintf("runesToRope: %T", r), kind: "unsupported"})
+		}
+	}
+	return ropeVal(out)
 }
 
 // ropeIter iterates a byte-transparent rope as a string (ASCII/bytes only: each byte is a rune
